@@ -101,6 +101,16 @@ CASES = [
     ("updrecv", "fn f(e: Eng, x: &[u8]) -> Eng { let mut h = e; h.input(x); h.input(b\"s\"); h }",
      ("expect", ["(ext_Eng_input : Eng → (List Nat) → Eng)", "let h := (ext_Eng_input h x)", "let h := (ext_Eng_input h [115])"]), (None, "f"),
      {"Eng.input": {"params": ["Eng", "&[u8]"], "ret": "Eng", "updates_receiver": True}}),
+    ("fieldname", "pub struct P { pub id: Option<u32>, pub id0: u32 }\nimpl P { fn id(&self) -> u32 { self.id.unwrap_or(self.id0) } }",
+     ("expect", ["def P.id_fn (self : P) : Nat", "self.id.getD self.id0"]), ("P", "id")),
+    ("updrecv-mutparam", "fn f<W: Write>(w: &mut W, x: u16) -> Result<(), Error> { w.write_all(&x.to_be_bytes())?; Ok(()) }",
+     ("expect", ["(ext_W_write_all : W → (List Nat) → (Rs.M W))", "let t_1 ← ext_W_write_all w (Rs.toBeBytes 2 x)", "let w := t_1", "pure w"]), (None, "f"),
+     {"W.write_all": {"params": ["W", "&[u8]"], "ret": "Result<W, Error>", "monadic": True, "updates_receiver": True}}),
+    ("updrecv-value", "fn f<R: Read>(r: &mut R) -> Result<u32, Error> { let a = r.read_u16_be()?; let b = r.read_u16_be()?; Ok(a as u32 + b as u32) }",
+     ("expect", ["let t_1 ← ext_R_read_u16_be r", "let (rcv_2, val_3) := t_1", "let r := rcv_2", "(r, "]), (None, "f"),
+     {"R.read_u16_be": {"params": ["R"], "ret": "Result<(R, u16), Error>", "monadic": True, "updates_receiver": True}}),
+    ("r-mutparam-opaque", "fn f<W: Write>(w: &mut W, x: u16) -> Result<(), Error> { w.write_all(&x.to_be_bytes())?; Ok(()) }",
+     ("refuse", "opaque")),
     ("r-updrecv-undeclared", "fn f(e: Eng, x: &[u8]) -> Eng { let mut h = e; h.input(x); h }", ("refuse", "input")),
     ("entry2", "pub struct H { pub p: K2, pub v: u64 }\nfn f(hs: &[H]) -> BTreeMap<K2, u64> { let mut m = BTreeMap::new(); for h in hs { m.entry(h.p).and_modify(|e| *e += h.v).or_insert(h.v); } m }",
      ("expect", ["match (Rs.omapGet m h.p) with", "| some e =>", "Rs.uadd Rs.U64_MAX e h.v", "Rs.omapInsert m h.p e", "Rs.omapInsert m h.p h.v"])),
